@@ -93,7 +93,8 @@ class Probe:
                 if k == 'one':
                     pass
                 elif k == 'pow':
-                    v = v * x ** f[1]
+                    # exponent 1 as a plain product: its derivative is a constant that does not require grad
+                    v = v * (x if f[1] == 1 else x ** f[1])
                 elif k == 'sin':
                     v = v * torch.sin(f[1] * x + f[2])
                 elif k == 'exp':
